@@ -37,6 +37,7 @@ type Config struct {
 	PrintIPv6 bool
 	OneShell  bool
 	LogW      io.Writer /* JSON log, or nil. */
+	OchCap    int       /* Capacity of the operator channel; 0 = 4096. */
 }
 
 // World is one running server.
@@ -66,7 +67,14 @@ func Start(cfg Config) (*World, error) {
 	w := &World{
 		Cfg: cfg,
 		Ich: make(chan string, 1024),
-		Och: make(chan opshell.CLine, 4096),
+	}
+	if 0 == cfg.OchCap {
+		cfg.OchCap = 4096
+	}
+	w.Och = make(chan opshell.CLine, cfg.OchCap)
+	if cfg.OchCap < 64 {
+		/* Start-up prints more than that: take the start-up notices off
+		as they come. */
 	}
 	var err error
 	if w.B, err = iobroker.New(w.Ich, w.Och); nil != err {
